@@ -2,7 +2,7 @@
    B[(l,m,L),(r,n,R)] = sum_{s,S} PhiL(l,s,r) A_k(s,m,n,S) PhiR(L,S,R)  equals  < F e_(l,m,L), A F e_(r,n,R) >, where F e is the train
    with a unit core at position k - for every order, position, mode sizes (rectangular included) and rank profile. *)
 From Coq Require Import List Arith Lia Ring Bool.
-From TT Require Import RingSig SumN Mat Dense Core CoreP Arith ArithP MatOps MatOpsP Reduce ReduceP BilinearP Local.
+From TT Require Import RingSig SumN Mat Dense Core CoreP Arith ArithP MatOps MatOpsP Reduce ReduceP BilinearP Local Struct StructP.
 Import ListNotations.
 
 Section LocalP.
@@ -123,3 +123,51 @@ Proof.
 Qed.
 
 End LocalP.
+
+(* ---- the division (C13): the divisor acts as the DIAGONAL operator diag(y); its local operator at any position is the projection of the
+   entrywise product with y on the frame of the current quotient ---- *)
+Section DivisionLocal.
+Context {R : Type} {RO : RingOps R} {RL : RingLaws R}.
+Add Ring Rr51 : Rth.
+Open Scope R_scope.
+
+Lemma diag_tt_chained4 (y : tt R) : forall r, chained r y -> chained4 r (diag_tt y).
+Proof. induction y as [|c t IH]; intros r H; simpl in *; [exact H|]. destruct H as [H1 H2]. split; [exact H1|apply IH; exact H2]. Qed.
+Lemma diag_tt_shapes (y : tt R) : shapeM (diag_tt y) = shape y /\ shapeN (diag_tt y) = shape y.
+Proof. induction y as [|c t [IH1 IH2]]; [split; reflexivity|]. cbn [diag_tt map shapeM shapeN shape] in *. fold (diag_tt t). unfold shapeM, shapeN, shape in *. simpl. rewrite IH1, IH2. split; reflexivity. Qed.
+
+Lemma sum_idx_deltas ns : forall is_ (f : list nat -> R), Forall2 lt is_ ns ->
+  sum_idx ns (fun js => deltas is_ js * f js) = f is_.
+Proof.
+  induction ns as [|n t IH]; intros is_ f H; inversion H; subst; cbn [sum_idx deltas].
+  - ring.
+  - rewrite (sum_n_ext n _ (fun j => delta x j * sum_idx t (fun js => deltas l js * f (j :: js)))).
+    + rewrite sum_n_delta_l by assumption. apply (IH l (fun js => f (x :: js))). assumption.
+    + intros j _. rewrite <- sum_idx_scal_l. apply sum_idx_ext. intros js _ _. ring.
+Qed.
+
+Theorem division_local_dense (pre post ypre ypost : tt R) (yk : core3 R) ra rb l0 m0 L0 r0' n0 R0 :
+  length ypre = length pre -> length ypost = length post ->
+  (l0 < ra)%nat -> (r0' < ra)%nat -> (L0 < rb)%nat -> (R0 < rb)%nat -> (m0 < nn yk)%nat -> (n0 < nn yk)%nat ->
+  wf (pre ++ unit3 ra (nn yk) rb l0 m0 L0 :: post) -> wf (ypre ++ yk :: ypost) -> wf (pre ++ unit3 ra (nn yk) rb r0' n0 R0 :: post) ->
+  chained rb post -> chained (r1 yk) ypost ->
+  local_mat (phiF pre (diag_tt ypre) pre ones3) (diag_core yk) (phiB post (diag_tt ypost) post) l0 m0 L0 r0' n0 R0
+  = sum_idx (shape (ypre ++ yk :: ypost)) (fun is_ =>
+      rconj (entry (pre ++ unit3 ra (nn yk) rb l0 m0 L0 :: post) is_) * entry (ypre ++ yk :: ypost) is_
+      * entry (pre ++ unit3 ra (nn yk) rb r0' n0 R0 :: post) is_).
+Proof.
+  intros H1 H2 Hl Hr HL HR Hm Hn W1 Wy W3 Hpost Hyp.
+  assert (HD : diag_tt (ypre ++ yk :: ypost) = diag_tt ypre ++ diag_core yk :: diag_tt ypost) by (unfold diag_tt; rewrite map_app; reflexivity).
+  pose proof (local_mat_dense pre post (diag_tt ypre) (diag_tt ypost) (diag_core yk) ra rb l0 m0 L0 r0' n0 R0) as HG.
+  cbn [diag_core mm nm q1] in HG.
+  rewrite HG; clear HG; try assumption; try (unfold diag_tt; rewrite map_length; assumption).
+  2:{ rewrite <- HD. destruct Wy as [Wn Wc]. split; [unfold diag_tt; destruct (ypre ++ yk :: ypost); [congruence|discriminate]|apply diag_tt_chained4; exact Wc]. }
+  2:{ apply diag_tt_chained4. exact Hyp. }
+  rewrite <- HD. destruct (diag_tt_shapes (ypre ++ yk :: ypost)) as [S1 S2]. rewrite S1, S2.
+  apply sum_idx_ext. intros is_ Hli HFi.
+  rewrite (sum_idx_ext (shape (ypre ++ yk :: ypost)) _ (fun js => deltas is_ js *
+      (rconj (entry (pre ++ unit3 ra (nn yk) rb l0 m0 L0 :: post) is_) * entry (ypre ++ yk :: ypost) is_ * entry (pre ++ unit3 ra (nn yk) rb r0' n0 R0 :: post) js))).
+  - rewrite sum_idx_deltas by exact HFi. reflexivity.
+  - intros js Hlj _. rewrite diag_tt_full by (unfold shape in *; rewrite map_length in *; assumption). ring.
+Qed.
+End DivisionLocal.
